@@ -16,9 +16,19 @@ import (
 	"verif/harness/sim"
 )
 
+// one recorder for the package: TestC14 (in-process clusters) and TestC14Proc
+// (real server processes killed with SIGKILL in the middle of catalogue writes)
+var shared *mon.Recorder
+
+func TestMain(m *testing.M) {
+	shared = mon.Open("C14")
+	code := m.Run()
+	shared.Close()
+	os.Exit(code)
+}
+
 func TestC14(t *testing.T) {
-	rec := mon.Open("C14")
-	defer rec.Finish(t)
+	rec := shared
 	if only := os.Getenv("VERIF_CASE"); only != "" {
 		var c int
 		fmt.Sscan(only, &c)
